@@ -472,8 +472,20 @@ func (c *Ctx) c09Metadata() {
 func (c *Ctx) c09Fingerprint() {
 	cfg := baseCfg()
 	now := ms(baseTime)
+	trust := "fingerprint"
 	mkSP := func() *saml.ServiceProvider {
 		s := c.realSP(cfg)
+		if trust != "fingerprint" {
+			// IdP metadata whose signing certificates are (partly) placeholders: empty or blank X509Certificate elements
+			idpCert := base64.StdEncoding.EncodeToString(c.key("idp").Cert.Raw)
+			certs := map[string][]string{"md-empty": {""}, "md-blank": {" \n\t"}, "md-two-empty": {"", ""}, "md-empty+idp": {"", idpCert}, "md-idp+empty": {idpCert, " "}}[trust]
+			kd := saml.KeyDescriptor{Use: "signing"}
+			for _, cs := range certs {
+				kd.KeyInfo.X509Data.X509Certificates = append(kd.KeyInfo.X509Data.X509Certificates, saml.X509Certificate{Data: cs})
+			}
+			s.IDPMetadata.IDPSSODescriptors[0].KeyDescriptors = []saml.KeyDescriptor{kd}
+			return s
+		}
 		s.IDPMetadata.IDPSSODescriptors[0].KeyDescriptors = nil
 		sum := sha256.Sum256(c.key("idp").Cert.Raw)
 		var parts []string
@@ -486,6 +498,7 @@ func (c *Ctx) c09Fingerprint() {
 	}
 	shapes := []string{"intact", "empty", "comment-only", "text+comment", "element-inside", "garbage", "no-x509data", "no-keyinfo", "two-certificates", "foreign-namespace-signature-first"}
 	b := &builder{c: c, spCert: c.key("sp").Cert, badCert: c.key("sp2").Cert}
+	for _, trust = range []string{"fingerprint", "md-empty", "md-blank", "md-two-empty", "md-empty+idp", "md-idp+empty"} {
 	for _, layout := range []string{"resp-signed", "assn-signed"} {
 		for _, shape := range shapes {
 			r := baseResp(cfg, now)
@@ -536,11 +549,12 @@ func (c *Ctx) c09Fingerprint() {
 			res := withTimeout(func() string {
 				return safely(func() string { return canonParse(s.ParseXMLResponse(xmlb, []string{"id-req1"}, mustURL(cfg.Acs))) })
 			}, 10*time.Second)
-			orc := panicOracle(res, "ParseXMLResponse/fingerprint")
-			c.count("c09-fingerprint", layout+"/"+shape+"/"+strings.SplitN(res, " ", 2)[0])
+			orc := panicOracle(res, "ParseXMLResponse/"+trust)
+			c.count("c09-"+trust, layout+"/"+shape+"/"+strings.SplitN(res, " ", 2)[0])
 			c.units++
-			c.emitOneWay("fuzz", []string{encStr("ParseXMLResponse/fingerprint:" + layout + "/" + shape)}, strings.SplitN(res, " ", 2)[0], orc)
+			c.emitOneWay("fuzz", []string{encStr("ParseXMLResponse/" + trust + ":" + layout + "/" + shape)}, strings.SplitN(res, " ", 2)[0], orc)
 		}
+	}
 	}
 }
 
